@@ -142,16 +142,44 @@ class TemplateEval(object):
                         return out
                     if isinstance(a, (ast.ListComp, ast.GeneratorExp)):
                         return [self._join_comp(sep, a, at, depth)]
+                    if isinstance(a, ast.Name):
+                        # a local list written as a literal and extended by straight-line ``.append(x)`` statements
+                        items = self.list_build(a.id, at)
+                        if items is not None:
+                            out = []
+                            for i, (x, ln) in enumerate(items):
+                                if i and sep:
+                                    out.append(sep)
+                                out.extend(self.ev(x, ln, depth + 1))
+                            return out
                     return [Sym('join', sep=sep, elt=None, iter=a, filters=[], base=self.base_of(a, at))]
-            if isinstance(f, ast.Attribute) and f.attr == 'format' and not e.args:
+            if isinstance(f, ast.Attribute) and f.attr == 'format' and not any(isinstance(x, ast.Starred) for x in e.args):
                 t = self.ev(f.value, at, depth + 1)
                 if all(isinstance(p, str) for p in t):
                     fmt = ''.join(t)
                     kw = dict((k.arg, self.ev(k.value, at, depth + 1)) for k in e.keywords if k.arg)
+                    for k in e.keywords:
+                        if k.arg is None:
+                            # ``**fields`` with fields a dict display / dict(k=v) (possibly a single-assignment local)
+                            more = self._str_keyed_dict(k.value, at)
+                            if more is None:
+                                return [Sym('expr', expr=e)]
+                            for name, (v, ln) in more.items():
+                                kw.setdefault(name, self.ev(v, ln, depth + 1))
+                    pos = [self.ev(x, at, depth + 1) for x in e.args]
                     out = []
-                    for p in re.split(r'(\{[A-Za-z_][A-Za-z_0-9]*\})', fmt):
-                        if len(p) > 2 and p[0] == '{' and p[-1] == '}' and p[1:-1] in kw:
-                            out.extend(kw[p[1:-1]])
+                    auto = 0
+                    for p in re.split(r'(\{[A-Za-z_0-9]*\})', fmt):
+                        name = p[1:-1] if len(p) >= 2 and p[0] == '{' and p[-1] == '}' else None
+                        if name is not None and name in kw:
+                            out.extend(kw[name])
+                        elif name is not None and pos and (name == '' or name.isdigit()):
+                            i = auto if name == '' else int(name)
+                            if name == '':
+                                auto += 1
+                            if i >= len(pos):
+                                return [Sym('expr', expr=e)]
+                            out.extend(pos[i])
                         elif p:
                             out.append(p.replace('{{', '{').replace('}}', '}'))
                     return out
@@ -189,6 +217,63 @@ class TemplateEval(object):
                     out.extend(self.ev(v.value, at, depth + 1))
             return out
         return [Sym('expr', expr=e)]
+
+    # -- locals built in several statements -----------------------------------------
+    def list_build(self, name, at_line=None):
+        """[(element expr, line)] of a local list that is bound once to a list display in the function's top-level
+        statement sequence and afterwards only changed by top-level ``name.append(x)`` statements (every other use is a
+        read) -- the elements in order, as far as line ``at_line``.  None for any other way of building it."""
+        body = self.fi.node.body
+        defs = [(st, v, idx) for st, v, idx in assigned_value(self.fi.node, name)]
+        if len(defs) != 1 or defs[0][2] is not None or not isinstance(defs[0][1], (ast.List, ast.Tuple)) or defs[0][0] not in body \
+                or name in self.params or any(isinstance(x, ast.Starred) for x in defs[0][1].elts):
+            return None
+        items = [(x, defs[0][0].lineno) for x in defs[0][1].elts]
+        top_appends = {}
+        for st in body:
+            if isinstance(st, ast.Expr) and isinstance(st.value, ast.Call) and isinstance(st.value.func, ast.Attribute) and \
+                    isinstance(st.value.func.value, ast.Name) and st.value.func.value.id == name and st.value.func.attr == 'append' and \
+                    len(st.value.args) == 1 and not st.value.keywords:
+                top_appends[id(st.value)] = st
+        # any other mutation / escape of the list makes the element sequence unknown
+        for n in ast.walk(self.fi.node):
+            if isinstance(n, ast.Call) and isinstance(n.func, ast.Attribute) and isinstance(n.func.value, ast.Name) and n.func.value.id == name:
+                if id(n) not in top_appends and n.func.attr not in ('index', 'count', 'copy'):
+                    return None
+            if isinstance(n, (ast.Subscript, ast.Attribute)) and isinstance(n.ctx, (ast.Store, ast.Del)) and isinstance(n.value, ast.Name) and n.value.id == name:
+                return None
+            if isinstance(n, ast.AugAssign) and isinstance(n.target, ast.Name) and n.target.id == name:
+                return None
+        for st in body:
+            if id(getattr(st, 'value', None)) in top_appends and st.lineno > defs[0][0].lineno and (at_line is None or st.lineno <= at_line):
+                items.append((st.value.args[0], st.lineno))
+            elif id(getattr(st, 'value', None)) in top_appends and st.lineno <= defs[0][0].lineno:
+                return None
+        return items
+
+    def _str_keyed_dict(self, d, at_line=None):
+        """{key: (value expr, line)} of a dict display / ``dict(k=v, ...)`` with constant string keys, looking through a
+        single-assignment local; None otherwise."""
+        ln = at_line
+        if isinstance(d, ast.Name):
+            vals = self.local_def(d.id)
+            if len(vals) != 1 or d.id in self.params:
+                return None
+            for n in ast.walk(self.fi.node):      # the dict must not be changed after it was written
+                if isinstance(n, ast.Call) and isinstance(n.func, ast.Attribute) and isinstance(n.func.value, ast.Name) and n.func.value.id == d.id \
+                        and n.func.attr not in ('get', 'keys', 'values', 'items', 'copy'):
+                    return None
+                if isinstance(n, ast.Subscript) and isinstance(n.ctx, (ast.Store, ast.Del)) and isinstance(n.value, ast.Name) and n.value.id == d.id:
+                    return None
+            ln = vals[0][0].lineno
+            d = vals[0][1]
+        if isinstance(d, ast.Dict):
+            if not all(isinstance(k, ast.Constant) and isinstance(k.value, str) for k in d.keys):
+                return None
+            return dict((k.value, (v, ln)) for k, v in zip(d.keys, d.values))
+        if isinstance(d, ast.Call) and isinstance(d.func, ast.Name) and d.func.id == 'dict' and not d.args and all(k.arg for k in d.keywords):
+            return dict((k.arg, (k.value, ln)) for k in d.keywords)
+        return None
 
     # -- iterables ---------------------------------------------------------------
     def base_of(self, it, at_line=None, depth=0):
